@@ -1250,11 +1250,11 @@ func c01Excluded(tc l4Case, f *syntax.File, sh *shape) string {
 	}) {
 		return "C01-binnext-heredoc-nested"
 	}
-	// C01-zsh-anon-function-word-body: zsh `function` NEWLINE `b` is parsed as an anonymous function
+	// C01-function-word-body: zsh `function` NEWLINE `b` is parsed as an anonymous function
 	// (no name) whose body is the simple command `b`; it is printed `function b`, which reads as the
 	// header of a function named b.  Likewise `function f` NEWLINE `b` prints `function f b` (two
-	// names).
-	if tc.Lang == syntax.LangZsh && sh.any(func(n syntax.Node) bool {
+	// names; in bash/bats/mksh, where `function f` NEWLINE `b` is accepted too, a reparse error).
+	if sh.any(func(n syntax.Node) bool {
 		fd, ok := n.(*syntax.FuncDecl)
 		if !ok || !fd.RsrvWord || fd.Parens || fd.Body == nil {
 			return false
@@ -1262,7 +1262,7 @@ func c01Excluded(tc l4Case, f *syntax.File, sh *shape) string {
 		_, isBlock := fd.Body.Cmd.(*syntax.Block)
 		return !isBlock
 	}) {
-		return "C01-zsh-anon-function-word-body"
+		return "C01-function-word-body"
 	}
 	// C01-dashhdoc-nested-string-indent: with tab indentation the body of a <<- here-document is
 	// re-indented line by line, also the lines *inside* a quoted string, an escaped newline or a
